@@ -7,7 +7,7 @@
    non-blank line; `item_ok g` says that nothing in item `g` is rejected; `file_clean ls` that
    every item of the file and of the files it includes is valid.  `status_of_count` is
    regenerated from src/main.cc on every run (Gen/StatusOfCount.v). *)
-From LedgerV Require Import Base.Prelude Gen.StatusOfCount Gen.CheckingStyle Model.Errors Proofs.ErrorsProofs.
+From LedgerV Require Import Base.Prelude Gen.StatusOfCount Gen.CheckingStyle Gen.NameChecks Model.Errors Proofs.ErrorsProofs.
 Local Open Scope Z_scope.
 
 (* ---- one located message per invalid item ------------------------------------------------- *)
@@ -179,6 +179,26 @@ Theorem unknown_names_quiet_otherwise : forall o nk k,
   unknown_name_reaction o nk = RQuiet /\ resolve_ann o (AUnknown nk k) = None.
 Proof. exact quiet_unknown. Qed.
 Print Assumptions unknown_names_quiet_otherwise.
+
+(* a commodity that stands as a posting's cost, as a lot price or after `=`: where parse_post hands
+   it to register_commodity (Gen/NameChecks.v, regenerated from src/textual.cc) an undeclared one
+   is treated exactly like an undeclared commodity of the amount - an error under --pedantic -;
+   where it does not, it is accepted whatever the options (findings F130 / F131 while that lasts) *)
+Theorem commodity_in_checked_position_is_checked : forall o p k,
+  position_checked p = true ->
+  resolve_ann o (AUnknownAt p k) = resolve_ann o (AUnknown NCommodity k) /\
+  (o_pedantic o = true -> o_permissive o = false -> resolve_ann o (AUnknownAt p k) = Some k).
+Proof.
+  intros o p k H. split; [apply checked_position_like_amount; exact H|].
+  intros Hp Hq. rewrite (checked_position_like_amount o p k H).
+  apply (pedantic_unknown_is_error o NCommodity k Hp Hq). discriminate.
+Qed.
+Print Assumptions commodity_in_checked_position_is_checked.
+
+Theorem commodity_in_unchecked_position_is_accepted : forall o p k,
+  position_checked p = false -> resolve_ann o (AUnknownAt p k) = None.
+Proof. exact unchecked_position_accepted. Qed.
+Print Assumptions commodity_in_unchecked_position_is_accepted.
 
 (* a balance assertion that is off is an error unless --permissive *)
 Theorem balance_assertion_error_unless_permissive : forall o k,
